@@ -346,3 +346,10 @@ def check_c16(pid, tier, replay):
                     ["harness/drive_bank.cpp observes the map only through the public bank API",
                      "allocation counting by a harness-side operator new override",
                      "a stale OPN2_Bank handle is never passed (API contract): remove/set use a fresh lookup"])
+
+
+# ------------------------------------------------------------------ plug-in check modules (lib/checks_*.py)
+def _load_plugins():
+    import glob, importlib
+    for p in sorted(glob.glob(os.path.join(os.path.dirname(os.path.abspath(__file__)), "checks_*.py"))):
+        importlib.import_module(os.path.basename(p)[:-3])
